@@ -103,6 +103,11 @@ THOROUGH_EXAMPLES = QUICK_EXAMPLES + ["ex_006", "ex_011", "ex_013_",
                                       "ex_300", "ex_850"]
 
 
+# number of example scripts executed by the last run_examples_under (whether
+# or not they produced events of the tracer)
+RAN = [0]
+
+
 def run_examples_under(tracer, thorough=False):
     """Returns (traces, labels, outcomes, skipped)."""
     import glob
@@ -113,6 +118,7 @@ def run_examples_under(tracer, thorough=False):
     exdir = os.path.join(REPO, "quantarhei", "wizard", "examples")
     names = THOROUGH_EXAMPLES if thorough else QUICK_EXAMPLES
     traces, labels, outcomes, skipped = [], [], [], 0
+    RAN[0] = 0
     cwd = os.getcwd()
     work = tempfile.mkdtemp(prefix="verif_ex_")
     os.chdir(work)
@@ -131,6 +137,7 @@ def run_examples_under(tracer, thorough=False):
                     runpy.run_path(path, run_name="__main__")
                 except BaseException as e:
                     outcome = type(e).__name__
+            RAN[0] += 1
             over = getattr(tracer, "overflow", False)
             ev = tracer.take()
             try:
